@@ -294,7 +294,10 @@ func (p *PALS) Align(complement bool) (dp.Hits, error) {
 	p.notifyf("Identified %d filter hits", p.morass.Len())
 
 	p.notify("Merging")
-	merger := filter.NewMerger(p.index, working, p.FilterParams, p.MaxIGap, p.selfCompare)
+	// The merger's self-comparison cut (drop hits at or below the main diagonal) is only
+	// valid for the forward strand; on the complement strand the filter has already
+	// restricted the search to one side of the anti-diagonal.
+	merger := filter.NewMerger(p.index, working, p.FilterParams, p.MaxIGap, p.selfCompare && !complement)
 	var h filter.Hit
 	for {
 		if err = p.morass.Pull(&h); err != nil {
